@@ -234,7 +234,8 @@ def run(c, prog):
             continue
         comps = []
         for q in p["pats"]:
-            inner = q["pats"][0] if q.get("k") == "TupleStruct" and q["pats"] else None
+            # `(Some(x), Some(0), Some(0))` over the three Options, or `(x, 0, 0)` once they were unwrapped with `?`
+            inner = q["pats"][0] if q.get("k") == "TupleStruct" and q["pats"] else (q if q.get("k") in ("Binding", "Expr") else None)
             if inner is None:
                 comps.append("?")
             elif inner.get("k") == "Binding":
